@@ -1,4 +1,5 @@
 import Swat4.Model.UseCases.Discovery
+import Swat4.Gen.Facts
 /-!
 # C13 — A probe outcome transforms the latest server state and nothing else
 
@@ -217,5 +218,9 @@ example : ∃ (s : AbsState) (stale latest : Server) (u : Int),
   let latest : Server := { stale with refreshedAt := some 9, version := 4 }
   exact ⟨{ servers := (∅ : ExtTreeMap Nat SRow).insert a.key ⟨latest, 9⟩ }, stale, latest, 9,
     by simp [AbsState.getRow, stale, latest], rfl, by decide⟩
+
+/-- the nine status bits and their names are the ones of `ds.Members()` / `BitString()` in the source
+(regenerated `Gen/Facts.lean`) -/
+theorem facts_ok : Facts.dsMemberValues = Status.members.map (·.toNat) ∧ Facts.dsMemberNames = Status.names := by decide
 
 end Swat4.C13
